@@ -67,6 +67,8 @@ type Pool struct {
 	Bound    int // 0 = unbounded
 	inUse    int
 	aborted  bool
+	// ValueTx: BeginTx returns its transaction wrapper by value (TxV) instead of a pointer.
+	ValueTx bool
 }
 
 func New(db *sql.DB, drv *simdrv.Sim) *Pool {
@@ -321,8 +323,17 @@ func (p *Pool) BeginTx(ctx context.Context, opts *sql.TxOptions) (gorm.ConnPool,
 		return nil, err
 	}
 	p.leave("begin")
-	return &Tx{p: p, tx: tx, ctx: ctx, token: !readOnly}, nil
+	t := &Tx{p: p, tx: tx, ctx: ctx, token: !readOnly}
+	if p.ValueTx {
+		return TxV{t}, nil
+	}
+	return t, nil
 }
+
+// TxV is a transaction handed out by value (a wrapper type need not be a pointer).
+type TxV struct{ *Tx }
+
+var _ gorm.Tx = TxV{}
 
 // ---------------------------------------------------------------- Tx
 
